@@ -21,6 +21,11 @@ for c in checks:
         if l.startswith("VIOLATION"):
             first = (lines[i + 1] if i + 1 < len(lines) else "")[:300]
             break
+    if c in runs and runs[c]["exit"] == 0 and rc == 1:
+        # missed by an earlier version of the check, caught now
+        meta.setdefault("missed_at_first_run_by", [])
+        if c not in meta["missed_at_first_run_by"]:
+            meta["missed_at_first_run_by"].append(c)
     runs[c] = {"check": c, "exit": rc, "first": first}
 meta["checks_run"] = list(runs.values())
 meta["caught_by"] = [c["check"] for c in meta["checks_run"] if c["exit"] == 1]
